@@ -215,20 +215,27 @@ def random_unit_deviators(rng, n, form):
 
 # ------------------------------------------------------------------ honest-failure signature of the root finder (finding C09-N1)
 
-def rootfind_budget_signature(law, trial, e_old, dt, max_iters=50):
-    """Structural signature for "the scalar root finder cannot resolve the root within its budget".
+def rootfind_budget_signature(law, trial, e_old, dt, max_iters=50, noise=0.0):
+    """Structural signature for "the scalar root finder cannot resolve the root within its budget" (findings C09-N1/N2).
 
     Spec residual along the return direction: g(D) = 3 mu D - (trial - Y(e_old + D)) + overstress(D/dt), D in (0, W],
     W the library's bracket width.  Its root D* is located here by bisection on a log scale (independent of rtsafe).
     dx = r_tol / g'(D*) is the half-width of the set of points that meet the residual tolerance.  The documented
     budget (50 Newton/bisection iterations, x_tol = 0) cannot be expected to succeed when that set is narrower than
-    one floating-point spacing at eqps_old + D* (no representable solution) or than 2^-max_iters of the bracket (more halvings than the budget allows).
+    one floating-point spacing at eqps_old + D* (no representable solution: rate-sensitive overstress with its infinite
+    slope at D = 0, or eqps so large relative to the yield strain that 3 mu * ulp(eqps) > r_tol) or than 2^-max_iters of
+    the bracket (more halvings than the budget allows).
+    `noise` is the rounding bound of the trial stress: a trial state that the reference sees inside the yield tolerance by
+    less than that may be seen as barely yielding by the library.
     """
     mu, Y0 = law.mu, law.Y0
     Yold = float(law.flow_static(e_old))
     over0 = trial - Yold
-    if not law.rate or over0 <= 0:
-        return {"match": False, "why": "not rate sensitive or not yielding"}
+    if over0 <= TOL_SOLVER * Y0:
+        if over0 < -noise:
+            return {"match": False, "why": "not yielding", "rate": law.rate}
+        over0 = TOL_SOLVER * Y0 * (1.0 + 1e-6)          # barely yielding, to within the rounding of the trial stress
+        trial = Yold + over0
     W = (over0 + 10 * TOL_SOLVER * Y0) / (3 * mu)
 
     def g(D):
@@ -244,10 +251,11 @@ def rootfind_budget_signature(law, trial, e_old, dt, max_iters=50):
             else:
                 lo = mid
         Dstar = 10.0 ** hi
-    slope = 3 * mu + float(law.slope_static(e_old + Dstar)) + float(law.over(Dstar, dt)) / (law.m * Dstar)
+    slope = 3 * mu + float(law.slope_static(e_old + Dstar)) + (float(law.over(Dstar, dt)) / (law.m * Dstar) if law.rate else 0.0)
     dx = TOL_SOLVER * Y0 / slope
     spacing = float(onp.spacing(e_old + Dstar))
     n_needed = math.log2(W / dx) if dx > 0 else float("inf")
     unrepresentable = dx < spacing
-    return {"match": bool(unrepresentable or n_needed >= float(max_iters)), "root_increment": Dstar, "bracket_width": W, "tolerance_band_halfwidth": dx,
+    match = bool(unrepresentable or (law.rate and n_needed >= float(max_iters)))
+    return {"match": match, "rate": law.rate, "root_increment": Dstar, "bracket_width": W, "tolerance_band_halfwidth": dx,
             "spacing_at_root": spacing, "bisections_needed": n_needed, "unrepresentable": bool(unrepresentable)}
